@@ -509,8 +509,9 @@ def firstTooLong (keyLen : Nat) : List (Bytes × Bytes) → Option Nat
   | (k, _) :: rest =>
     if keyLen + 4 + k.length > MaxKeyLength then some (keyLen + 4 + k.length) else firstTooLong keyLen rest
 
-/-- walkFields with the max-key callback of parsePoint: the walk stops at the first field
-    that is too long, so a later `invalid value` is not reported. -/
+/-- walkFields with the callback of parsePoint (max key length, and — since the fix
+    fixes/C12-lone-quote-value-panic.patch — no lone `"` as a value): the walk stops at the
+    first offending field, so a later `invalid value` is not reported. -/
 def walkFieldsCheck (keyLen : Nat) : Nat → Bytes → Except Err Unit
   | 0, _ => .ok ()
   | _, [] => .ok ()
@@ -520,7 +521,9 @@ def walkFieldsCheck (keyLen : Nat) : Nat → Bytes → Except Err Unit
     else if keyLen + 4 + s1.1.length > MaxKeyLength then .error (.maxKey (keyLen + 4 + s1.1.length))
     else
       let s2 := scanFieldValue false false (s1.2.drop 1)
-      walkFieldsCheck keyLen fuel (s2.2.drop 1)
+      -- fix C12-lone-quote-value-panic: a lone `"` is not a value
+      if s2.1 = [cQuote] then .error .unbalancedQuotes
+      else walkFieldsCheck keyLen fuel (s2.2.drop 1)
 
 /-! ### scanTime, SafeCalcTime -/
 
